@@ -210,7 +210,7 @@ impl DnaString {
         let mut dna_string = DnaString::new();
 
         for c in dna.chars() {
-            match dna_only_base_to_bits(c as u8) {
+            match u8::try_from(c).ok().and_then(dna_only_base_to_bits) {
                 Some(bit) => {
                     dna_string.push(bit);
                 }
